@@ -221,6 +221,24 @@ func (c *shCase) settle(d time.Duration) {
 	if len(c.queued) > 0 && c.anyBlocked() {
 		c.out.Oracle("C12", "items %v reached the socket and handle(s) are blocked in accept/read, but nothing was handed over within %v", c.queued, d)
 	}
+	// a connection that reached the socket and was handed to nobody must stay open for the handles
+	// that are still open (only the last close may end it)
+	if !c.packet && len(c.openHandles()) > 0 {
+		for _, id := range c.queued {
+			it := c.items[id]
+			if it == nil || it.conn == nil || it.closed {
+				continue
+			}
+			it.conn.SetReadDeadline(time.Now().Add(500 * time.Microsecond))
+			var b [1]byte
+			_, err := it.conn.Read(b[:])
+			var ne net.Error
+			if err != nil && !(errors.As(err, &ne) && ne.Timeout()) {
+				it.closed = true
+				c.out.Oracle("C12", "connection %d reached the socket, was delivered to no handle, and was closed by the server (%v) while %d handle(s) are still open", id, err, len(c.openHandles()))
+			}
+		}
+	}
 }
 
 func (c *shCase) anyBlocked() bool {
@@ -548,6 +566,30 @@ func (c *shCase) run() {
 				c.call(Pick(r, closed))
 			}
 			c.out.Stat("sh.closed-call-with-queued", 1)
+		case roll < 95 && len(open) > 0 && len(open) < 4:
+			// a burst of the narrowest race: a fresh handle blocks in accept/read, and its Close meets a
+			// new arrival at the same instant, again and again, while another handle stays open
+			for k := 0; k < 25; k++ {
+				c.acquire()
+				hs := c.openHandles()
+				h := hs[len(hs)-1]
+				if h.call == nil {
+					c.call(h)
+				}
+				c.closeVsArrive(h)
+				c.settle(3 * time.Millisecond)
+				// keep the queue short: let an open handle take what is waiting
+				if len(c.queued) > 3 {
+					for _, o := range c.openHandles() {
+						if o.call == nil {
+							c.call(o)
+							break
+						}
+					}
+					c.settle(10 * time.Millisecond)
+				}
+			}
+			c.out.Stat("sh.race.burst", 1)
 		case roll < 96:
 			c.rebind()
 		default:
